@@ -299,93 +299,120 @@ Definition bh_step (hb : bool) (a : bh_acc) (h : str * str) : bh_acc :=
 
 Definition header_line (h : str * str) : str := fst h ++ [58; 32] ++ snd h.
 
-Definition build_response_header (c : cfg) (r : req) (t : task) : task * outcome bytes :=
-  let connection := lower_latin1 (match r_connection r with Some x => x | None => [] end) in
-  let a := fold_left (bh_step (has_body t)) (t_rh t) (mkAcc [] None None None) in
-  let t := set_rh (ac_rh a) t in
-  let '(clh, t) :=
-    match ac_cl a, t_clen t with
-    | None, Some n =>
-        if has_body t then
-          let s := z_to_dec n in (Some s, set_rh (t_rh t ++ [(lit "Content-Length", s)]) t)
-        else (ac_cl a, t)
-    | _, _ => (ac_cl a, t)
-    end in
-  let t :=
-    if negb (t_v11 t) then
-      if beqb connection (lit "keep-alive") then
-        if negb (truthy clh) then set_close_on_finish t
-        else set_rh (t_rh t ++ [(lit "Connection", lit "Keep-Alive")]) t
-      else set_close_on_finish t
-    else
-      let t := if beqb connection (lit "close") then set_close_on_finish t else t in
-      if negb (truthy clh) then
-        let t := if has_body t
-                 then set_chunked true (set_rh (t_rh t ++ [(lit "Transfer-Encoding", lit "chunked")]) t)
-                 else t in
-        if negb (t_cof t) then set_close_on_finish t else t
-      else t in
+(* build_response_header, in the order of the source: the normalising loop,
+   the Content-Length default, the version / Connection table, Server or Via,
+   Date, serialisation *)
+Definition bh_loop (t : task) : bh_acc :=
+  fold_left (bh_step (has_body t)) (t_rh t) (mkAcc [] None None None).
+
+Definition bh_clen (a : bh_acc) (t : task) : option str * task :=
+  match ac_cl a, t_clen t with
+  | None, Some n =>
+      if has_body t then
+        let s := z_to_dec n in (Some s, set_rh (t_rh t ++ [(lit "Content-Length", s)]) t)
+      else (ac_cl a, t)
+  | _, _ => (ac_cl a, t)
+  end.
+
+Definition bh_conn (connection : str) (clh : option str) (t : task) : task :=
+  if negb (t_v11 t) then
+    if beqb connection (lit "keep-alive") then
+      if negb (truthy clh) then set_close_on_finish t
+      else set_rh (t_rh t ++ [(lit "Connection", lit "Keep-Alive")]) t
+    else set_close_on_finish t
+  else
+    let t := if beqb connection (lit "close") then set_close_on_finish t else t in
+    if negb (truthy clh) then
+      let t := if has_body t
+               then set_chunked true (set_rh (t_rh t ++ [(lit "Transfer-Encoding", lit "chunked")]) t)
+               else t in
+      if negb (t_cof t) then set_close_on_finish t else t
+    else t.
+
+Definition bh_server (c : cfg) (a : bh_acc) (t : task) : task :=
   let ident := c_ident c in
-  let t :=
-    if negb (truthy (ac_server a)) then
-      match ident with
-      | _ :: _ => set_rh (t_rh t ++ [(lit "Server", ident)]) t
-      | [] => t
-      end
-    else set_rh (t_rh t ++ [(lit "Via", match ident with _ :: _ => ident | [] => lit "waitress" end)]) t in
-  let t :=
-    if negb (truthy (ac_date a)) then set_rh (t_rh t ++ [(lit "Date", c_date c)]) t else t in
-  let first_line := lit "HTTP/" ++ version_str t ++ [32] ++ t_status t in
-  let next_lines := map header_line (sort_hdrs (t_rh t)) in
-  let res := join CRLF (first_line :: next_lines) ++ CRLF ++ CRLF in
-  (t, encode_latin1 res).
+  if negb (truthy (ac_server a)) then
+    match ident with
+    | _ :: _ => set_rh (t_rh t ++ [(lit "Server", ident)]) t
+    | [] => t
+    end
+  else set_rh (t_rh t ++ [(lit "Via", match ident with _ :: _ => ident | [] => lit "waitress" end)]) t.
+
+Definition bh_date (c : cfg) (a : bh_acc) (t : task) : task :=
+  if negb (truthy (ac_date a)) then set_rh (t_rh t ++ [(lit "Date", c_date c)]) t else t.
+
+Definition first_line (t : task) : str := lit "HTTP/" ++ version_str t ++ [32] ++ t_status t.
+
+Definition head_text (t : task) : str :=
+  join CRLF (first_line t :: map header_line (sort_hdrs (t_rh t))) ++ CRLF ++ CRLF.
+
+Definition request_connection (r : req) : str :=
+  lower_latin1 (match r_connection r with Some x => x | None => [] end).
+
+Definition bh_prepare (c : cfg) (r : req) (t : task) : task :=
+  let a := bh_loop t in
+  let t := set_rh (ac_rh a) t in
+  let '(clh, t) := bh_clen a t in
+  let t := bh_conn (request_connection r) clh t in
+  let t := bh_server c a t in
+  bh_date c a t.
+
+Definition build_response_header (c : cfg) (r : req) (t : task) : task * outcome bytes :=
+  let t := bh_prepare c r t in
+  (t, encode_latin1 (head_text t)).
 
 Definition remove_content_length_header (t : task) : task :=
   set_rh (filter (fun h : str * str => negb (beqb (lower (fst h)) (lit "content-length"))) (t_rh t)) t.
 
 Definition st := (task * chan)%type.
 
-(* Task.write *)
-Definition task_write (c : cfg) (r : req) (disc : option nat) (s : st) (data : bytes) : st * outcome unit :=
+(* Task.write, first half: emit the head on the first call *)
+Definition write_header (c : cfg) (r : req) (disc : option nat) (s : st) : st * outcome unit :=
   let '(t, ch) := s in
-  if negb (t_complete t) then (s, Exn RuntimeError)
-  else
-    let hdr : st * outcome unit :=
-      if negb (t_wrote_header t) then
-        match build_response_header c r t with
-        | (t1, Exn e) => ((t1, ch), Exn e)
-        | (t1, Ok rh) =>
-            match write_soon disc ch (WBytes rh) with
-            | (ch1, Exn e) => ((t1, ch1), Exn e)
-            | (ch1, Ok _) => ((set_wrote true t1, ch1), Ok tt)
-            end
+  if negb (t_wrote_header t) then
+    match build_response_header c r t with
+    | (t1, Exn e) => ((t1, ch), Exn e)
+    | (t1, Ok rh) =>
+        match write_soon disc ch (WBytes rh) with
+        | (ch1, Exn e) => ((t1, ch1), Exn e)
+        | (ch1, Ok _) => ((set_wrote true t1, ch1), Ok tt)
         end
-      else (s, Ok tt) in
-    match hdr with
-    | (s1, Exn e) => (s1, Exn e)
-    | ((t, ch), Ok _) =>
-        match data with
+    end
+  else (s, Ok tt).
+
+(* Task.write, second half: chunk encoding, Content-Length clamp, no-body statuses *)
+Definition write_body (disc : option nat) (s : st) (data : bytes) : st * outcome unit :=
+  let '(t, ch) := s in
+  match data with
+  | [] => ((t, ch), Ok tt)
+  | _ :: _ =>
+      if has_body t then
+        let '(t, towrite) :=
+          if t_chunked t then
+            (t, to_hex_upper (lenN data) ++ CRLF ++ data ++ CRLF)
+          else match t_clen t with
+               | Some cl =>
+                   let tw := py_slice_to data (cl - t_cbw t)%Z in
+                   (set_cbw (t_cbw t + Z.of_nat (length tw))%Z t, tw)
+               | None => (t, data)
+               end in
+        match towrite with
         | [] => ((t, ch), Ok tt)
         | _ :: _ =>
-            if has_body t then
-              let '(t, towrite) :=
-                if t_chunked t then
-                  (t, to_hex_upper (lenN data) ++ CRLF ++ data ++ CRLF)
-                else match t_clen t with
-                     | Some cl =>
-                         let tw := py_slice_to data (cl - t_cbw t)%Z in
-                         (set_cbw (t_cbw t + Z.of_nat (length tw))%Z t, tw)
-                     | None => (t, data)
-                     end in
-              match towrite with
-              | [] => ((t, ch), Ok tt)
-              | _ :: _ =>
-                  match write_soon disc ch (WBytes towrite) with
-                  | (ch1, o) => ((t, ch1), o)
-                  end
-              end
-            else ((set_cbw (t_cbw t + Z.of_nat (length data))%Z t, ch), Ok tt)
+            match write_soon disc ch (WBytes towrite) with
+            | (ch1, o) => ((t, ch1), o)
+            end
         end
+      else ((set_cbw (t_cbw t + Z.of_nat (length data))%Z t, ch), Ok tt)
+  end.
+
+(* Task.write *)
+Definition task_write (c : cfg) (r : req) (disc : option nat) (s : st) (data : bytes) : st * outcome unit :=
+  if negb (t_complete (fst s)) then (s, Exn RuntimeError)
+  else
+    match write_header c r disc s with
+    | (s1, Exn e) => (s1, Exn e)
+    | (s1, Ok _) => write_body disc s1 data
     end.
 
 (* Task.finish *)
@@ -529,7 +556,8 @@ Fixpoint file_content (steps : list istep) : bytes :=
   end.
 
 Record exec_result := mkExec {
-  x_st : st; x_out : outcome unit; x_closes : nat; x_handover : bool }.
+  x_st : st; x_out : outcome unit; x_closes : nat; x_handover : bool;
+  x_iter : bool   (* the application call returned an iterable *) }.
 
 (* the try/finally body of WSGITask.execute after the application returned;
    gives (state, outcome, can_close_app_iter) *)
@@ -583,16 +611,16 @@ Definition execute_body (c : cfg) (r : req) (disc : option nat) (s : st) (a : ap
 (* WSGITask.execute *)
 Definition wsgi_execute (c : cfg) (r : req) (disc : option nat) (s : st) (a : app) : exec_result :=
   match run_actions c r disc s (a_call a) with
-  | (s1, Exn e) => mkExec s1 (Exn e) 0 false          (* the application raised: no iterable *)
+  | (s1, Exn e) => mkExec s1 (Exn e) 0 false false    (* the application raised: no iterable *)
   | (s1, Ok _) =>
       match execute_body c r disc s1 a with
       | (s2, o, can_close) =>
           if can_close && a_has_close a then
             match a_close_exn a with
-            | Some e => mkExec s2 (Exn e) 1 false      (* raised inside finally: replaces the outcome *)
-            | None => mkExec s2 o 1 false
+            | Some e => mkExec s2 (Exn e) 1 false true (* raised inside finally: replaces the outcome *)
+            | None => mkExec s2 o 1 false true
             end
-          else mkExec s2 o 0 (negb can_close)
+          else mkExec s2 o 0 (negb can_close) true
       end
   end.
 
@@ -609,24 +637,28 @@ Definition error_execute (c : cfg) (r : req) (disc : option nat) (s : st) (e : (
   let t := set_clen (Some (Z.of_nat (length bodyb))) t in
   task_write c r disc (t, ch) bodyb.
 
-(* Task.service: start / execute / finish under `except OSError` *)
-Definition task_service (c : cfg) (r : req) (disc : option nat) (s : st) (job : app + ((str * str) * str)) : exec_result :=
+(* start(); execute(); finish()  -- the try body of Task.service *)
+Definition task_run (c : cfg) (r : req) (disc : option nat) (s : st) (job : app + ((str * str) * str)) : exec_result :=
   let x :=
     match job with
     | inl a => wsgi_execute c r disc s a
-    | inr e => match error_execute c r disc s e with (s1, o) => mkExec s1 o 0 false end
+    | inr e => match error_execute c r disc s e with (s1, o) => mkExec s1 o 0 false false end
     end in
-  let x :=
-    match x_out x with
-    | Exn e => x
-    | Ok _ => match task_finish c r disc (x_st x) with (s2, o) => mkExec s2 o (x_closes x) (x_handover x) end
-    end in
+  match x_out x with
+  | Exn e => x
+  | Ok _ => match task_finish c r disc (x_st x) with
+            | (s2, o) => mkExec s2 o (x_closes x) (x_handover x) (x_iter x)
+            end
+  end.
+
+(* Task.service: ... except OSError: close_on_finish = True; re-raise if log_socket_errors *)
+Definition task_service (c : cfg) (r : req) (disc : option nat) (s : st) (job : app + ((str * str) * str)) : exec_result :=
+  let x := task_run c r disc s job in
   match x_out x with
   | Exn e =>
       if is_OSError e then
-        let '(t, ch) := x_st x in
-        let x1 := mkExec (set_cof true t, ch) (x_out x) (x_closes x) (x_handover x) in
-        if c_log_socket_errors c then x1 else mkExec (x_st x1) (Ok tt) (x_closes x) (x_handover x)
+        let s1 := (set_cof true (fst (x_st x)), snd (x_st x)) in
+        mkExec s1 (if c_log_socket_errors c then x_out x else Ok tt) (x_closes x) (x_handover x) (x_iter x)
       else x
   | Ok _ => x
   end.
@@ -641,6 +673,11 @@ Record result := mkResult {
   o_wrote_header : bool;       (* wrote_header of the last task *)
   o_served_500 : bool;         (* the ladder built an InternalServerError task *)
   o_nws1 : nat;                (* write_soon calls made by the first task *)
+  (* about the first task (not observable from outside; used to state C09) *)
+  o_raw : option exn;          (* exception that left execute()/finish(), before `except OSError` *)
+  o_iter : bool;               (* the application call returned an iterable *)
+  o_writes1 : list witem;      (* what the first task wrote *)
+  o_wrote_header1 : bool;      (* wrote_header of the first task *)
 }.
 
 (* HTTPChannel.service for requests[0] *)
@@ -648,19 +685,23 @@ Definition channel_service (c : cfg) (r : req) (a : app) (disc : option nat) : r
   let job : app + ((str * str) * str) := match r_error r with Some e => inr e | None => inl a end in
   let t0 := new_task (r_version r) (match r_error r with Some _ => true | None => false end) in
   let s0 : st := (t0, mkChan [] 0) in
+  let serviced := connected disc 0 in
+  let raw := task_run c r disc s0 job in
   let x :=
-    if connected disc 0 then task_service c r disc s0 job
-    else mkExec (set_cof true t0, snd s0) (Ok tt) 0 false in
-  let nws1 := ch_nws (snd (x_st x)) in
+    if serviced then task_service c r disc s0 job
+    else mkExec (set_cof true t0, snd s0) (Ok tt) 0 false false in
+  let t := fst (x_st x) in
+  let ch := snd (x_st x) in
   let fin (s : st) (esc : option exn) (served : bool) :=
-    let '(t, ch) := s in
-    let closing := match esc with None => t_cof t | Some _ => false end in
-    let nexting := match esc with None => negb (t_cof t) | Some _ => false end in
-    mkResult (rev (ch_writes ch)) closing nexting (x_closes x) (x_handover x) esc (t_wrote_header t) served nws1 in
+    let closing := match esc with None => t_cof (fst s) | Some _ => false end in
+    let nexting := match esc with None => negb (t_cof (fst s)) | Some _ => false end in
+    mkResult (rev (ch_writes (snd s))) closing nexting (x_closes x) (x_handover x) esc
+             (t_wrote_header (fst s)) served (ch_nws ch)
+             (if serviced then match x_out raw with Exn e => Some e | Ok _ => None end else None)
+             (x_iter x) (rev (ch_writes ch)) (t_wrote_header t) in
   match x_out x with
   | Ok _ => fin (x_st x) None false
   | Exn e =>
-      let '(t, ch) := x_st x in
       if exn_eqb e ClientDisconnected then fin (set_cof true t, ch) None false
       else if is_Exception e then
         if negb (t_wrote_header t) then
@@ -672,7 +713,7 @@ Definition channel_service (c : cfg) (r : req) (a : app) (disc : option nat) : r
           | Ok _ => fin (x_st x1) None true
           | Exn e1 =>
               if exn_eqb e1 ClientDisconnected then
-                let '(t2, ch2) := x_st x1 in fin (set_cof true t2, ch2) None true
+                fin (set_cof true (fst (x_st x1)), snd (x_st x1)) None true
               else fin (x_st x1) (Some e1) true
           end
         else fin (set_cof true t, ch) None false
